@@ -111,14 +111,19 @@ fn main() {
             k.dedup();
             k
         };
+        // weakly determined plants (sigma_min/sigma_max below what Newton-Kantorovich needs for a ball of
+        // this size): no clause of the property is guaranteed even in exact arithmetic; violations there
+        // get their own signature suffix (reported under known finding F15)
+        let weak_all = smin_nz / smax < 0.05;
+        let wk = if weak_all { "-ill-conditioned" } else { "" };
         match solve(&sys.reqs, sys.guesses.clone(), sys.config()) {
-            Err(e) => bad(format!("solve fails ({:?}) although every guess is within {pert}*scale of an exact solution", e.error), format!("fails-near-solution:{}", kinds.join("+"))),
+            Err(e) => bad(format!("solve fails ({:?}) although every guess is within {pert}*scale of an exact solution", e.error), format!("fails-near-solution{wk}:{}", kinds.join("+"))),
             Ok(o) => {
                 iter_hist[o.iterations().min(9)] += 1;
                 if o.is_unsatisfied() {
-                    bad(format!("unsatisfied {:?} although started within {pert}*scale of an exact solution", o.unsatisfied()), format!("unsatisfied-near-solution:{}", kinds.join("+")));
+                    bad(format!("unsatisfied {:?} although started within {pert}*scale of an exact solution", o.unsatisfied()), format!("unsatisfied-near-solution{wk}:{}", kinds.join("+")));
                 } else if o.iterations() > 8 {
-                    bad(format!("{} iterations from within {pert}*scale of an exact solution", o.iterations()), format!("slow-near-solution:{}", kinds.join("+")));
+                    bad(format!("{} iterations from within {pert}*scale of an exact solution", o.iterations()), format!("slow-near-solution{wk}:{}", kinds.join("+")));
                 } else {
                     let d1: f64 = o.final_values().iter().zip(&x0).map(|(a, b)| (a - b) * (a - b)).sum::<f64>().sqrt();
                     if d1 > 1.5 * d0 + 1e-9 * sys.scale.max(1.0) {
